@@ -369,9 +369,11 @@ def run_units(units, env=None, per=100, tag="units", prelude=None, timeout_ms=30
                         break
                 u = chosen
                 if u.get("ok"):
-                    out[k] = {"ok": True, "vals": u.get("vals", []), "out": u.get("out", "")}
+                    out[k] = {"ok": True, "vals": u.get("vals", []), "out": u.get("out", ""),
+                              "emits": u.get("emits", [])}
                 else:
-                    o = {"ok": False, "kind": u.get("kind"), "err": u.get("err", ""), "out": u.get("out", "")}
+                    o = {"ok": False, "kind": u.get("kind"), "err": u.get("err", ""), "out": u.get("out", ""),
+                         "emits": u.get("emits", [])}
                     if u.get("panics"):
                         o["panic"] = (u["panics"][0][0], u["panics"][0][1])
                         stop = True  # the engine is not trusted after a panic
